@@ -219,6 +219,8 @@ def c08_variants(tree, tier):
     v += [("clock", 2001), ("clock", 2033)]
     v += [("rerun", 0)]
     v += [("cli", s) for s in ("plain", "quiet", "prog2", "trackers-rel", "verbose")]
+    if isdir:
+        v.append(("cli", "out-inside"))
     return v
 
 
@@ -339,6 +341,9 @@ def _c08_run(d, name, tree, creator, pl, opts, variant, tag):
                     argv += [sp, "-a"] + TRACKERS + ["--web-seed"] + WEBSEEDS + ["--http-seed"] + HTTPSEEDS
                 else:
                     argv += [str(path)]
+                if vid == "out-inside" and os.path.isdir(str(path)):
+                    # an explicit new output file INSIDE the content directory: nothing of the output may leak into the info dictionary
+                    out = os.path.join(str(path), "zz_out.torrent")
                 argv += ["--meta-version", mv, "--piece-length", str(pl), "-o", out]
                 argv += ["--prog", "2"] if vid == "prog2" else (["--prog", "0"] if vid != "plain" else [])
                 if opts.get("private"):
